@@ -185,6 +185,9 @@ def make_dep5(rng, clean=False):
         cops = [f"20{10 + j} Holder{j}"] + ([f"1999 Second{j} <s@example.com>"] if rng.random() < 0.4 else [])
         if rng.random() < 0.35:
             cops.append("Copyright (C) 2015 Shared Holder")
+        if rng.random() < 0.25:
+            # notices aligned in columns, as debian/copyright files have them
+            cops.append(rng.choice([f"2008-2010  Aligned  Holder{j}", f"2012\tTabbed Holder{j}  <t@example.com>"]))
         lic = rng.choice(["MIT", "GPL-3.0-or-later", "Apache-2.0 OR MIT", "CC0-1.0"])
         lines = ["Files: " + rng.choice([" ", "\n ", "  "]).join(pats)]
         if rng.random() < 0.2:
